@@ -41,7 +41,7 @@ from . import _c04_model as M
 PROPERTY = "C04"
 RULE = (
     "history cells: a start tensor (any order 1..4/5, zero pattern none/one/some/all, sparse storage in "
-    "sorted/reverse/random order) and a list of concrete read/write operations generated while tracking the model "
+    "sorted/reverse/random order; one start in twelve is the empty order-0 tensor, whose first write creates all modes) and a list of concrete read/write operations generated while tracking the model "
     "shape so that every operation is valid for the state it meets; after every write shape/den/well-formedness of "
     "T and S are compared with the NumPy model, every read with np.ix_ semantics.  Single-operation cells: one "
     "read or one write per (class, key form) from a generated start state; enumerated cell: every region key over a "
@@ -69,6 +69,11 @@ ASSUMPTIONS = [
     "subscript array",
     "the right-hand side of a region assignment has the shape of the kept modes (integer-indexed modes dropped), "
     "as in the docstring examples of both classes",
+    "integer subscripts are python ints, in about one key out of six numpy.int64; scalar right-hand sides are python "
+    "float / python int / numpy.float64 (no numpy integer scalars: sptensor documents 'scalar' and tests int/float)",
+    "known-finding classes are decided by pure functions of (operation, model state, S.subs/S.shape before the "
+    "operation) in _c04_model.dense_tags / sparse_tags; a failure in an operation that carries no tag can never be "
+    "matched by a known finding",
 ]
 
 # --------------------------------------------------------------------------
@@ -225,10 +230,13 @@ def check_read(ctx, what: str, r, holder: str, shape, key, expect) -> bool:
 class State:
     def __init__(self, start):
         self.A = gen.dense_of_sparse_case(start)
-        self.X = {
-            "T": ttb.tensor(self.A.copy(order="F"), tuple(start["shape"])),
-            "S": gen.build_sptensor(start),
-        }
+        if len(start["shape"]) == 0:
+            self.X = {"T": ttb.tensor(), "S": ttb.sptensor()}  # the empty tensors (order 0)
+        else:
+            self.X = {
+                "T": ttb.tensor(self.A.copy(order="F"), tuple(start["shape"])),
+                "S": gen.build_sptensor(start),
+            }
         self.alive = {"T": True, "S": True}
         self.grew = False
         self.nt = False
@@ -444,6 +452,9 @@ def _key(draw, shape, write: bool, form: Optional[str], tier: str, cap: int):
     max_order += 1
     room = cap / max(1, ref.prod(shape))
     max_p = 4 if tier == "quick" else 6
+    if len(shape) == 0:
+        assert write and form != "linear"
+        return draw(_first_key(form or draw(st.sampled_from(["full", "region", "subs"])), max_p))
     if form is None:
         form = draw(st.sampled_from(["full", "region", "region", "region", "subs", "subs", "linear", "linear"]))
     if form in ("full", "region"):
@@ -498,14 +509,39 @@ def _rhs(draw, shape, key, vkind: str):
     return dict(r="vec", v=vals, **{"as": draw(st.sampled_from(["ndarray", "list"]))})
 
 
-def _start(tier, max_cells=None):
+EMPTY_START = dict(shape=[], subs=[], vals=[], vkind="int", pattern="none", order="sorted")
+
+
+def _start(tier, allow_empty=False):
     c0, _, _ = _caps(tier)
-    return gen.sparse_case(tier, min_order=1, max_cells=max_cells or c0)
+    base = gen.sparse_case(tier, min_order=1, max_cells=c0)
+    if not allow_empty:
+        return base
+    # one start in twelve is the empty tensor ttb.tensor() / ttb.sptensor() (order 0): the first write creates every mode
+    return st.integers(0, 11).flatmap(lambda i: st.just(dict(EMPTY_START)) if i == 0 else base)
+
+
+@st.composite
+def _first_key(draw, form: str, max_p: int):
+    """A key for the empty (order-0) tensor: every mode is new."""
+    order = draw(st.integers(1, 3))
+    if form == "subs":
+        ext = [draw(st.integers(1, 3)) for _ in range(order)]
+        total = ref.prod(ext)
+        p = draw(st.integers(1, min(max_p, total)))
+        lins = draw(st.lists(st.integers(0, total - 1), min_size=p, max_size=p, unique=True))
+        return dict(f="subs", rows=[M.lin_to_sub(i, ext) for i in lins])
+    if form == "full":
+        return dict(f="tuple", k=[draw(st.integers(0, 2)) for _ in range(order)])
+    k = [draw(_elem(None, 0)) for _ in range(order)]
+    if all(M.is_int(e) for e in k):
+        k[draw(st.integers(0, order - 1))] = dict(s=[0, draw(st.integers(1, 2))])
+    return dict(f="tuple", k=k)
 
 
 @st.composite
 def _single(draw, tier, opk: str, form: str):
-    start = draw(_start(tier))
+    start = draw(_start(tier, allow_empty=(opk == "w" and form != "linear")))
     shape = start["shape"]
     _, cap, _ = _caps(tier)
     key = draw(_key(shape, opk == "w", form, tier, cap))
@@ -518,13 +554,13 @@ def _single(draw, tier, opk: str, form: str):
 @st.composite
 def _history(draw, tier, try_known: bool):
     _, cap, max_steps = _caps(tier)
-    start = draw(_start(tier))
+    start = draw(_start(tier, allow_empty=True))
     A = gen.dense_of_sparse_case(start)
     n = draw(st.integers(2, max_steps))
     ops = []
     for _ in range(n):
         shape = list(A.shape)
-        write = draw(st.integers(0, 9)) < 6
+        write = draw(st.integers(0, 9)) < 6 or len(shape) == 0
         key = draw(_key(shape, write, None, tier, cap))
         op = dict(op="w" if write else "r", key=key)
         if write:
@@ -541,17 +577,21 @@ def _history(draw, tier, try_known: bool):
 
 def _run_history(ctx, case):
     start = case["start"]
-    ctx.label(*gen.shape_classes(start["shape"]), "pattern-" + start["pattern"], "stored-" + start["order"])
+    ctx.label(f"order{len(start['shape'])}", "pattern-" + start["pattern"], "stored-" + start["order"])
     st_ = State(start)
-    for X, h in ((st_.X["T"], "T"), (st_.X["S"], "S")):
-        check_write(ctx, f"{h}.start", X, h, st_.A)
+    if len(start["shape"]):
+        for X, h in ((st_.X["T"], "T"), (st_.X["S"], "S")):
+            check_write(ctx, f"{h}.start", X, h, st_.A)
+    else:
+        ctx.label("empty-start")
     nsteps = 0
     for op in case["ops"]:
         step(ctx, st_, op, try_known=case["try_known"])
         nsteps += 1
         if not (st_.alive["T"] or st_.alive["S"]):
             break
-    ctx.label(f"steps-{min(nsteps // 10 * 10, 50)}+", f"final-order{st_.A.ndim}")
+    # (few labels here: the evidence keeps the 40 most frequent ones and the excluded:/exercised: counts matter most)
+    ctx.label("steps<10" if nsteps < 10 else ("steps-10..29" if nsteps < 30 else "steps>=30"))
     ctx.nt = st_.nt
 
 
@@ -576,6 +616,8 @@ def _run_single(ctx, case, holder: str):
     start, op = case["start"], case["op"]
     shape = start["shape"]
     ctx.label(*gen.shape_classes(shape), "pattern-" + start["pattern"])
+    if len(shape) == 0:
+        ctx.label("empty-start")
     if holder == "S":
         ctx.label("stored-" + start["order"])
     st_ = State(start)
